@@ -14,6 +14,7 @@ type Compiled struct {
 	LDSBytes  int
 	KernargSz int
 	PackedIDs bool
+	NoWGID    [3]bool
 	// Listing holds one line per emitted instruction group (for replay messages).
 	Listing []string
 }
@@ -209,6 +210,26 @@ func (p *Program) Compile() (*Compiled, error) {
 	}
 	if usesLDS {
 		a.SOP1(kasm.OpSMovB32, kasm.M0, kasm.Imm(-1))
+	}
+	if p.NoWGID != [3]bool{} {
+		// the enabled work-group ids arrive in consecutive SGPRs from sWGX on; move them to
+		// s2 (x), s3 (y), s4 (z), highest first, and clear the disabled ones
+		src := [3]int{-1, -1, -1}
+		n := 0
+		for d := 0; d < 3; d++ {
+			if !p.NoWGID[d] {
+				src[d] = sWGX + n
+				n++
+			}
+		}
+		for d := 2; d >= 0; d-- {
+			switch {
+			case src[d] < 0:
+				a.SOP1(kasm.OpSMovB32, kasm.S(sWGX+d), kasm.Imm(0))
+			case src[d] != sWGX+d:
+				a.SOP1(kasm.OpSMovB32, kasm.S(sWGX+d), kasm.S(src[d]))
+			}
+		}
 	}
 	if p.PackedIDs {
 		// v0 = x | y<<10 | z<<20 (code object v5): unpack into v0, v1, v2
@@ -453,6 +474,7 @@ func (p *Program) Compile() (*Compiled, error) {
 		LDSBytes:  c.nLDS * int(wgItems) * 4,
 		KernargSz: 32,
 		PackedIDs: p.PackedIDs,
+		NoWGID:    p.NoWGID,
 		Listing:   c.list,
 	}, nil
 }
